@@ -39,9 +39,43 @@ enum ABTI_verif_event_kind {
     ABTI_VEV_DATA = 20,     /* a = object, b = field id, c = value stored */
     ABTI_VEV_LOAD = 21,     /* a = object, b = field id, c = value read (lock-free read) */
     ABTI_VEV_CALLBACK = 22, /* a = object: user callback about to be invoked */
+    ABTI_VEV_Q_PUSH = 30,   /* a = queue, b = thread, c = 0 head / 1 tail (under the pool lock) */
+    ABTI_VEV_Q_POP = 31,    /* a = queue, b = thread or 0, c = 0 head / 1 tail */
+    ABTI_VEV_Q_REMOVE = 32, /* a = queue, b = thread */
+    ABTI_VEV_Q_EMPTY = 33,  /* a = queue, c = is_empty read without the lock */
+    ABTI_VEV_NB_ADD = 34,   /* a = pool, b = 1 inc / 2 dec, c = old value */
+    ABTI_VEV_NB_LOAD = 35,  /* a = pool, c = value */
+    ABTI_VEV_NSCHED_LOAD = 36, /* a = pool, c = value */
+    ABTI_VEV_REQ_OR = 37,   /* a = thread, b = bits, c = old value */
+    ABTI_VEV_REQ_AND = 38,  /* a = thread, b = bits cleared */
+    ABTI_VEV_REQ_LOAD = 39, /* a = thread, b = site, c = value */
+    ABTI_VEV_STATE = 40,    /* a = thread, b = new state */
+    ABTI_VEV_STATE_LOAD = 41, /* a = thread, b = site, c = value */
+    ABTI_VEV_LINK_STORE = 42, /* a = target, b = joiner thread, c = 1 if external dummy */
+    ABTI_VEV_LINK_LOAD = 43,  /* a = thread, b = linked thread or 0 */
+    ABTI_VEV_CB = 44,       /* a = previous thread, b = callback kind: its context is saved */
+    ABTI_VEV_FUTEX_RESUME = 45, /* a = joiner dummy thread */
+    ABTI_VEV_SET_POOL = 46, /* a = thread, b = pool */
+    ABTI_VEV_MIG_STORE = 47, /* a = thread, b = target pool */
+    ABTI_VEV_MIG_LOAD = 48,  /* a = thread, b = target pool */
+    ABTI_VEV_MIG_CB = 49,    /* a = thread: migration callback about to be called */
+    ABTI_VEV_UNIT_INIT = 50, /* a = thread, b = type bits, c = pool */
+    ABTI_VEV_UNIT_REVIVE = 51, /* a = thread, c = pool */
+    ABTI_VEV_UNIT_FREE = 52, /* a = thread */
+    ABTI_VEV_SREQ_OR = 53,  /* a = sched, b = bits */
+    ABTI_VEV_SREQ_LOAD = 54, /* a = sched, b = site, c = value */
+    ABTI_VEV_XSTATE = 55,   /* a = xstream, b = state */
+    ABTI_VEV_SCHED_STOP = 56, /* a = sched: main scheduler leaves its loop, b = reason */
+    ABTI_VEV_RUN_TASK = 57, /* a = tasklet: function about to be called */
     ABTI_VEV_USER = 1000    /* harness-defined kinds start here */
 };
 
+enum ABTI_verif_cb_kind {
+    ABTI_VCB_YIELD = 1, ABTI_VCB_THREAD_YIELD_TO = 2, ABTI_VCB_RESUME_YIELD_TO = 3,
+    ABTI_VCB_SUSPEND = 4, ABTI_VCB_RESUME_SUSPEND_TO = 5, ABTI_VCB_EXIT = 6,
+    ABTI_VCB_RESUME_EXIT_TO = 7, ABTI_VCB_SUSPEND_UNLOCK = 8, ABTI_VCB_SUSPEND_JOIN = 9,
+    ABTI_VCB_SUSPEND_REPLACE_SCHED = 10, ABTI_VCB_ORPHAN = 11
+};
 #define ABTI_VERIF_ON() (ABTI_verif_hooks.ev != NULL)
 /* One self-contained record. */
 #define ABTI_VERIF_EV(kind, a, b, c)                                           \
